@@ -44,6 +44,7 @@ type loopWalker struct {
 	held   map[string]bool
 	conds  []loopCond
 	calls  []string // full text of every statement that contains an event call, in order
+	depth  int      // helper methods of connState being walked in place
 	// alpha-normalisation of local identifiers (scope = one function declaration)
 	scope *ast.FuncDecl
 	names map[*ast.Object]string
@@ -202,7 +203,38 @@ func (w *loopWalker) call(c *ast.CallExpr) error {
 	if loopIgnored[name] {
 		return nil
 	}
+	// a helper method of connState without results and without return statements (e.g. an extracted
+	// `sendReply`): its body is walked in place, with the mutexes held at the call
+	if strings.HasPrefix(name, "cs.") && !strings.Contains(name[3:], ".") && w.depth < 3 {
+		fds, err := w.r.FuncDecls("p9")
+		if err == nil {
+			if fd := fds["connState."+name[3:]]; fd != nil && fd.Body != nil && fd.Type.Results == nil && loopRecvIs(fd, "cs") && !loopHasReturn(fd.Body) {
+				w.depth++
+				err := w.block(fd.Body)
+				w.depth--
+				return err
+			}
+		}
+	}
 	return w.r.Refuse(c.Pos(), "%s: call of %s", w.fn, name)
+}
+
+func loopRecvIs(fd *ast.FuncDecl, name string) bool {
+	return fd.Recv != nil && len(fd.Recv.List) == 1 && len(fd.Recv.List[0].Names) == 1 && fd.Recv.List[0].Names[0].Name == name
+}
+
+func loopHasReturn(b *ast.BlockStmt) bool {
+	found := false
+	ast.Inspect(b, func(n ast.Node) bool {
+		if _, ok := n.(*ast.ReturnStmt); ok {
+			found = true
+		}
+		if _, ok := n.(*ast.FuncLit); ok {
+			return false
+		}
+		return true
+	})
+	return found
 }
 
 func (w *loopWalker) expr(e ast.Expr) error {
